@@ -54,7 +54,7 @@ fn gen_states<T: TElem>(g: &mut Sm64, n_chains: usize, len: usize, n_params: usi
     let mut locs = vec![];
     let mut scales = vec![];
     for _ in 0..n_params {
-        let s = if T::INT { g.uniform(2.0, 40.0) } else { g.log_uniform(1e-2, 1e2) };
+        let s = if T::INT { g.uniform(2.0, 40.0) } else if g.chance(0.3) { g.log_uniform(1e-6, 1e4) } else { g.log_uniform(1e-2, 1e2) };
         scales.push(s);
         let ratio = if g.chance(0.7) { g.uniform(-3.0, 3.0) } else { g.uniform(-30.0, 30.0) };
         locs.push(if T::INT { (ratio.abs() * s).min(2000.0) + 3.0 * s } else { ratio * s });
